@@ -9,7 +9,9 @@ from py2v import gen
 PROP = "C03"
 PROPS_FILES = ["Props/C03.v", "Props/C03_psd.v", "Props/C03_se_psd.v", "Props/C03_c0_1d_psd.v"]
 ASSUMPTIONS = [
-  "real arithmetic (Coq R); float rounding outside the model - the searcher compares with 1e-9 relative tolerance",
+  "real arithmetic (Coq R); float rounding outside the model - the searcher compares every entry with 1e-9 * alpha absolutely AND, wherever phi(r) is a normal double (> 1e-280), "
+  "relatively to alpha*phi(r) itself (1e-9 plus the first-order effect of the rounding of the squared distance through the entry point used: pairwise, pdist, or the "
+  "|x|^2+|z|^2-2x.z expansion); entries whose closed form underflows (r beyond ~745 for the Matern profiles, ~38 for the square exponential) are compared absolutely only",
   "scipy.spatial.distance pdist 'sqeuclidean' + squareform computes sum_k (u_k - v_k)^2 (translated as that contract)",
   "positive semi-definiteness of n x n Gram matrices is PROVED for the SquareExponential kernel (all n, all dimensions, all point sets and length scales, the three entry points, with noise; "
   "exp-series + Schur multipliers, Props/C03_se_psd.v) and for the C0 Matern kernel in dimension 1 (min matrices, Props/C03_c0_1d_psd.v); for C0 in dimension >= 2, C2 and C4 only the 2x2 case is "
@@ -138,46 +140,94 @@ def oracle(inp):
     return None
   if kind == "multi":
     return multi_oracle(inp, fail)
-  cls, hp = inp["cls"], inp["hp"]
+  cls, hp = inp["cls"], [float(v) for v in inp["hp"]]
   from lib import gpgen
   k = gpgen.make_cov(dict(cls=cls, hp=hp, life=inp.get("life", "fresh")))   # fresh / re-assigned / overwritten in place and assigned again
   if [float(v) for v in k.hyperparameters] != [float(v) for v in hp]:
     return fail("hyperparameters do not read back as set", [float(v) for v in k.hyperparameters], hp)
-  x, z = numpy.array(inp["x"], dtype=float), numpy.array(inp["z"], dtype=float)
+  st = dict(x=numpy.array(inp["x"], dtype=float), z=numpy.array(inp["z"], dtype=float), hp=hp, last=[])
+  st["noise"] = numpy.array(inp.get("noise", [0.0] * len(st["z"])), dtype=float)
+  shift = numpy.array(inp.get("shift", [0.0] * (len(hp) - 1)))
+  return live_object(inp, k, st, fail, lambda fl: radial_entry_points(k, cls, st["hp"], st["x"], st["z"], st["noise"], shift, fl, st["last"]))
+
+
+EPS = 2.3e-16
+
+
+def far_field_slack(cls, d2, scale2, dim, path):
+  """Relative accuracy that rounding alone can cost alpha*phi(r) through the given entry point (the closed form is compared RELATIVELY wherever
+  phi(r) is a normal double: an absolute tolerance of 1e-9*alpha says nothing about entries below 1e-9*alpha, i.e. beyond r ~ 6 for the
+  square exponential and r ~ 27 for the Matern kernels).  delta2 bounds the absolute error of the computed squared distance:
+    pairwise  ((x - z)/l)^2 summed:                            every term has a relative error of a few ulps
+    symmetric pdist(z/l): the quotients are rounded first:      |d(diff)| <= eps*(|u|+|v|) per coordinate
+    cross     |u|^2 + |v|^2 - 2 u.v (cancellation):             eps*(dim+3)*(|u|+|v|)^2
+  and |d log phi / d(r^2)| = 1/2 (square exponential), |d log phi / d r| <= 1 (Matern C0, C2, C4)."""
+  if path == "pairwise":
+    delta2 = 4 * EPS * (dim + 4) * d2
+  elif path == "symmetric":
+    delta2 = 4 * EPS * (3 * math.sqrt(d2 * scale2) + (dim + 4) * d2) + 4 * EPS * EPS * scale2
+  else:
+    delta2 = 8 * EPS * (dim + 3) * scale2
+  if cls == "SquareExponential":
+    return math.expm1(min(0.5 * delta2, 50.0))
+  return math.expm1(min(math.sqrt(d2 + delta2) - math.sqrt(max(d2 - delta2, 0.0)), 50.0))
+
+
+FAR_NORMAL = 1e-280   # below this phi(r) approaches the subnormal range (exp underflow beyond r ~ 745 / r ~ 38 is legitimate): absolute comparison only
+
+
+def far_field_bad(got, e, p, rel_slack):
+  """entry `got` against the closed form e = alpha*p, relatively, where p = phi(r) is a normal double and rounding cannot explain a difference"""
+  return p > FAR_NORMAL and rel_slack < 0.25 and not abs(got - e) <= e * (1e-9 + rel_slack)
+
+
+def radial_entry_points(k, cls, hp, x, z, noise, shift, fail, last):
+  """every entry point of the kernel object k, as it is now, against alpha*phi(r) of the points as they are now"""
   alpha, ls = hp[0], hp[1:]
+  dim = len(ls)
   def r(a, b):
     return math.sqrt(sum(((a[d] - b[d]) / ls[d]) ** 2 for d in range(len(ls))))
+  def sc2(a, b):
+    return sum((a[d] / ls[d]) ** 2 + (b[d] / ls[d]) ** 2 for d in range(len(ls)))
   tol = 1e-9
   n = min(len(x), len(z))
   pair = k.covariance(x[:n], z[:n])
+  last.append(pair)
   for i in range(n):
-    e = alpha * phi(cls, r(x[i], z[i]))
-    if abs(pair[i] - e) > tol * alpha:
+    rr = r(x[i], z[i])
+    p = phi(cls, rr)
+    e = alpha * p
+    if abs(pair[i] - e) > tol * alpha or far_field_bad(pair[i], e, p, far_field_slack(cls, rr * rr, sc2(x[i], z[i]), dim, "pairwise")):
       return fail("pairwise covariance differs from alpha*phi(r)", float(pair[i]), e)
   cross = k.build_kernel_matrix(z, x)
+  last.append(cross)
   cpairs = [(i, j) for i in range(len(x)) for j in range(len(z))]
   if len(cpairs) > 20000:   # a seeded sample of the entries of a big cross matrix
     rs2 = numpy.random.RandomState(len(cpairs) % 9973)
     cpairs = [(int(rs2.randint(len(x))), int(rs2.randint(len(z)))) for _ in range(3000)]
   for i, j in cpairs:
     if True:
-      e = alpha * phi(cls, r(x[i], z[j]))
+      rr = r(x[i], z[j])
+      p = phi(cls, rr)
+      e = alpha * p
       # the expansion |x|^2+|z|^2-2xz loses ~eps*|x|^2 in d2; allow for it through phi'
-      d2 = r(x[i], z[j]) ** 2
-      scale2 = sum((x[i][d] / ls[d]) ** 2 + (z[j][d] / ls[d]) ** 2 for d in range(len(ls)))
+      d2 = rr ** 2
+      scale2 = sc2(x[i], z[j])
       slack = alpha * (math.sqrt(d2 + 8e-16 * scale2) - math.sqrt(d2)) + tol * alpha
-      if abs(cross[i, j] - e) > slack:
+      if abs(cross[i, j] - e) > slack or far_field_bad(cross[i, j], e, p, far_field_slack(cls, d2, scale2, dim, "cross")):
         return fail("cross-matrix entry differs from alpha*phi(r)", float(cross[i, j]), e)
-  noise = numpy.array(inp.get("noise", [0.0] * len(z)))
   sym = k.build_kernel_matrix(z, noise_variance=noise)
+  last.append(sym)
   pairs = [(a, b) for a in range(len(z)) for b in range(len(z))]
   if len(z) > 60:   # large point sets (the code may switch algorithms with the number of points): the diagonal and a seeded sample of entries
     rs = numpy.random.RandomState(len(z))
     pairs = [(a, a) for a in range(len(z))] + [(int(rs.randint(len(z))), int(rs.randint(len(z)))) for _ in range(600)]
   for a, b in pairs:
     if True:
-      e = alpha * phi(cls, r(z[a], z[b])) + (noise[a] if a == b else 0.0)
-      if abs(sym[a, b] - e) > tol * (alpha + noise[a]):
+      rr = r(z[a], z[b])
+      p = phi(cls, rr)
+      e = alpha * p + (noise[a] if a == b else 0.0)
+      if abs(sym[a, b] - e) > tol * (alpha + noise[a]) or (a != b and far_field_bad(sym[a, b], e, p, far_field_slack(cls, rr * rr, sc2(z[a], z[b]), dim, "symmetric"))):
         return fail("symmetric-matrix entry differs from alpha*phi(r) + noise on the diagonal", float(sym[a, b]), e)
   # a noise variance common to all points, given as a Python scalar or a length-1 array, is added to the diagonal only as well
   for form in ("scalar", "len1"):
@@ -190,7 +240,7 @@ def oracle(inp):
     return fail("k(x,x) != alpha", float(k.covariance(x[:1], x[:1])[0]), alpha)
   if n and abs(float(k.covariance(x[:n], z[:n])[0]) - float(k.covariance(z[:n], x[:n])[0])) > tol * alpha:
     return fail("kernel not symmetric", None, None)
-  t = numpy.array(inp.get("shift", [0.0] * len(ls)))
+  t = shift
   if n:
     a, b = float(k.covariance(x[:n] + t, z[:n] + t)[0]), float(pair[0])
     mag = max(1.0, float(numpy.abs(t).max()) / min(ls))
@@ -199,6 +249,47 @@ def oracle(inp):
   w = numpy.linalg.eigvalsh(sym)
   if w.min() < -1e-10 * len(z) * (alpha + noise.max()):
     return fail("Gram matrix not positive semi-definite", float(w.min()), ">= 0")
+  return None
+
+
+HISTORY_OPS = ("move", "refill", "scale", "dup", "hp", "scribble", "again")
+
+
+def live_object(inp, k, st, fail, entry_points):
+  """The kernel object and the caller's point buffers have a life: the property speaks of every evaluation, so after each step of
+  inp["history"] all entry points are stated again on the SAME kernel object and the SAME array objects as they are then.
+    ["move", buf, i, delta]   one row of the caller's buffer moved in place        ["refill", buf, points]  the buffer refilled with a new point set
+    ["scale", buf, s]         the buffer rescaled in place                        ["dup", buf, i, j]       row i overwritten with row j
+    ["hp", values]            hyperparameters assigned on the live object         ["again"]                nothing changed, asked again
+    ["scribble"]              the caller overwrites the arrays the kernel returned last (they are the caller's)"""
+  r = entry_points(fail)
+  if r:
+    return r
+  for step in inp.get("history", []):
+    op = step[0]
+    if op == "move":
+      st[step[1]][step[2]] += numpy.array(step[3], dtype=float)
+    elif op == "refill":
+      st[step[1]][:] = numpy.array(step[2], dtype=float)
+    elif op == "scale":
+      st[step[1]] *= float(step[2])
+    elif op == "dup":
+      st[step[1]][step[2]] = st[step[1]][step[3]]
+    elif op == "hp":
+      k.hyperparameters = numpy.array(step[1], dtype=float)
+      st["hp"][:] = [float(v) for v in step[1]]
+      if [float(v) for v in k.hyperparameters] != st["hp"]:
+        return fail("hyperparameters do not read back as set", [float(v) for v in k.hyperparameters], list(st["hp"]))
+    elif op == "scribble":
+      for arr in st["last"]:
+        try:
+          arr[...] = -7.0
+        except (TypeError, ValueError):
+          pass
+    del st["last"][:]
+    r = entry_points(lambda what, observed, expected, op=op: fail(f"{what} [live object, after: {op}]", observed, expected))
+    if r:
+      return r
   return None
 
 
@@ -215,29 +306,46 @@ def multi_oracle(inp, fail):
     k.hyperparameters = numpy.array(hp)
   if [float(v) for v in k.hyperparameters] != hp:
     return fail("hyperparameters do not read back as set", [float(v) for v in k.hyperparameters], hp)
+  st = dict(x=numpy.array(inp["x"], dtype=float), z=numpy.array(inp["z"], dtype=float), noise=numpy.array(inp["noise"], dtype=float), hp=hp, last=[])
+  return live_object(inp, k, st, fail, lambda fl: multi_entry_points(k, pc, tc, st["hp"], st["x"], st["z"], st["noise"], fl, st["last"]))
+
+
+def multi_entry_points(k, pc, tc, hp, x, z, noise, fail, last):
   alpha, ls, lt = hp[0], hp[1:-1], hp[-1]
-  x, z = numpy.array(inp["x"], dtype=float), numpy.array(inp["z"], dtype=float)
-  def want(a, b):
-    rp = math.sqrt(sum(((a[d] - b[d]) / ls[d]) ** 2 for d in range(len(ls))))
+  dim = len(ls)
+  def parts(a, b, path):
+    """closed form, phi_phys*phi_task, and the relative error rounding can cause through `path` (sum of the two factors' slacks)"""
+    d2p = sum(((a[d] - b[d]) / ls[d]) ** 2 for d in range(dim))
+    s2p = sum((a[d] / ls[d]) ** 2 + (b[d] / ls[d]) ** 2 for d in range(dim))
     rt = abs(a[-1] - b[-1]) / lt
-    return alpha * phi(pc, rp) * phi(tc, rt)
+    s2t = (a[-1] / lt) ** 2 + (b[-1] / lt) ** 2
+    p = phi(pc, math.sqrt(d2p)) * phi(tc, rt)
+    return alpha * p, p, far_field_slack(pc, d2p, s2p, dim, path) + far_field_slack(tc, rt * rt, s2t, 1, path)
+  def want(a, b):
+    return parts(a, b, "pairwise")[0]
   tol = 1e-9 * alpha
   n = min(len(x), len(z))
   pair = k.covariance(x[:n], z[:n])
+  last.append(pair)
   for i in range(n):
-    if abs(pair[i] - want(x[i], z[i])) > tol:
-      return fail("pairwise covariance differs from alpha*phi_phys(r_phys)*phi_task(r_task)", float(pair[i]), want(x[i], z[i]))
+    e, p, rs = parts(x[i], z[i], "pairwise")
+    if abs(pair[i] - e) > tol or far_field_bad(pair[i], e, p, rs):
+      return fail("pairwise covariance differs from alpha*phi_phys(r_phys)*phi_task(r_task)", float(pair[i]), e)
   cross = k.build_kernel_matrix(z, x)
+  last.append(cross)
   for i in range(len(x)):
     for j in range(len(z)):
-      if abs(cross[i, j] - want(x[i], z[j])) > tol * (1 + 1e3 * float(numpy.abs(x[i]).max() + numpy.abs(z[j]).max()) ** 2 / min(ls + [lt]) ** 2 * 1e-6):
-        return fail("cross-matrix entry differs from alpha*phi_phys*phi_task", float(cross[i, j]), want(x[i], z[j]))
-  noise = numpy.array(inp["noise"], dtype=float)
+      e, p, rs = parts(x[i], z[j], "cross")
+      if (abs(cross[i, j] - e) > tol * (1 + 1e3 * float(numpy.abs(x[i]).max() + numpy.abs(z[j]).max()) ** 2 / min(ls + [lt]) ** 2 * 1e-6)
+          or far_field_bad(cross[i, j], e, p, rs)):
+        return fail("cross-matrix entry differs from alpha*phi_phys*phi_task", float(cross[i, j]), e)
   sym = k.build_kernel_matrix(z, noise_variance=noise)
+  last.append(sym)
   for a in range(len(z)):
     for b in range(len(z)):
-      e = want(z[a], z[b]) + (noise[a] if a == b else 0.0)
-      if abs(sym[a, b] - e) > 1e-9 * (alpha + noise[a]):
+      e, p, rs = parts(z[a], z[b], "symmetric")
+      e += noise[a] if a == b else 0.0
+      if abs(sym[a, b] - e) > 1e-9 * (alpha + noise[a]) or (a != b and far_field_bad(sym[a, b], e, p, rs)):
         return fail("symmetric-matrix entry differs from alpha*phi_phys*phi_task + noise on the diagonal", float(sym[a, b]), e)
   if abs(float(k.covariance(x[:1], x[:1])[0]) - alpha) > tol:
     return fail("k(x,x) != alpha", float(k.covariance(x[:1], x[:1])[0]), alpha)
@@ -247,10 +355,55 @@ def multi_oracle(inp, fail):
   return None
 
 
+def far_ladder(rng, cls, ls, base, count):
+  """points at prescribed length-scale-weighted distances from `base`, from nearly identical to beyond the underflow of exp: kernel values of
+  every magnitude a double can hold (uniform in r means uniform in the exponent of phi)"""
+  top = 38.6 if cls == "SquareExponential" else 745.0
+  out = []
+  for _ in range(count):
+    c = rng.random()
+    if c < 0.35:
+      r = rng.uniform(0, top)                  # anywhere in the representable range
+    elif c < 0.5:
+      r = top * rng.uniform(0.9, 1.1)          # around the edge of underflow
+    elif c < 0.7:
+      r = 10.0 ** rng.uniform(-9, 0)           # nearly identical .. one length scale
+    else:
+      r = rng.uniform(3, 60)                   # small values that all four profiles still resolve (SE up to 38)
+    u = [rng.gauss(0, 1) for _ in ls]
+    nu = math.sqrt(sum(v * v for v in u)) or 1.0
+    out.append([base[d] + r * u[d] / nu * ls[d] for d in range(len(ls))])
+  return out
+
+
+def gen_history(rng, n, m, newpt, newhp, phys_dim, delta_scale):
+  """a life of the kernel object and of the caller's two point buffers (see live_object)"""
+  steps = []
+  for _ in range(rng.randint(1, 4)):
+    op = rng.choice(["move", "move", "refill", "refill", "scale", "dup", "hp", "scribble", "again"])
+    buf = rng.choice(["z", "z", "x"])
+    cnt = m if buf == "z" else n
+    if op == "move":
+      steps.append(["move", buf, rng.randrange(cnt), [rng.uniform(-1, 1) * delta_scale[d] if d < phys_dim else 0.0 for d in range(len(delta_scale))]])
+    elif op == "refill":
+      steps.append(["refill", buf, [newpt() for _ in range(cnt)]])
+    elif op == "scale":
+      steps.append(["scale", buf, rng.choice([0.5, 2.0, 0.75, 1.0 + 2.0 ** -20])])
+    elif op == "dup":
+      steps.append(["dup", buf, rng.randrange(cnt), rng.randrange(cnt)])
+    elif op == "hp":
+      steps.append(["hp", newhp()])
+    else:
+      steps.append([op])
+  return steps
+
+
 def gen_multi(rng):
   dim = rng.randint(1, 5)
   cls = [rng.choice(DIFF), rng.choice(DIFF)]
-  hp = [10.0 ** rng.uniform(-3, 3)] + [10.0 ** rng.uniform(-1, 1) for _ in range(dim)] + [10.0 ** rng.uniform(-1, 1)]
+  def newhp():
+    return [10.0 ** rng.uniform(-3, 3)] + [10.0 ** rng.uniform(-1, 1) for _ in range(dim)] + [10.0 ** rng.uniform(-1, 1)]
+  hp = newhp()
   tasks = rng.choice([[0.1, 0.3, 1.0], [0.25, 1.0], [0.1, 0.2, 0.5, 0.7, 1.0]])
   def pt():
     return [rng.uniform(-1, 1) for _ in range(dim)] + [rng.choice(tasks)]
@@ -263,8 +416,15 @@ def gen_multi(rng):
     z[1] = [rng.uniform(-1, 1) for _ in range(dim)] + [z[0][-1]]   # another physical point at the same task
   if rng.random() < 0.3:
     x[0] = list(z[0])
-  return dict(kind="multi", cls=cls, hp=hp, x=x, z=z, life=rng.choice(["fresh", "reassigned"]),
-              noise=[rng.choice([0.0, 1e-12, 1e-3, 1.0]) * hp[0] for _ in range(m)])
+  if rng.random() < 0.3:   # physical distances of every size, up to the underflow of the physical profile
+    base = x[0][:-1]
+    z = [q + [rng.choice(tasks)] for q in far_ladder(rng, cls[0], hp[1:-1], base, m)]
+    x = [x[0]] + [q + [rng.choice(tasks)] for q in far_ladder(rng, cls[0], hp[1:-1], base, n - 1)]
+  inp = dict(kind="multi", cls=cls, hp=hp, x=x, z=z, life=rng.choice(["fresh", "reassigned"]),
+             noise=[rng.choice([0.0, 1e-12, 1e-3, 1.0]) * hp[0] for _ in range(m)])
+  if rng.random() < 0.4:
+    inp["history"] = gen_history(rng, n, m, pt, newhp, dim, [1.0] * dim + [0.0])
+  return inp
 
 
 def gen_input(rng):
@@ -279,16 +439,19 @@ def gen_input(rng):
   cls = rng.choice(KERNELS)
   hp = [10.0 ** rng.uniform(-6, 6)] + [10.0 ** rng.uniform(-3, 3) for _ in range(dim)]
   n, m = rng.randint(1, 7), rng.randint(1, 9)
+  big = False
   if rng.random() < 0.03:   # many sampled points in few dimensions
-    dim, m = rng.randint(1, 3), rng.choice([999, 1000, 1001, 1500])
+    dim, m, big = rng.randint(1, 3), rng.choice([999, 1000, 1001, 1500]), True
     hp = [10.0 ** rng.uniform(-1, 1)] + [10.0 ** rng.uniform(-1, 1) for _ in range(dim)]
   elif rng.random() < 0.02:  # a big rectangular batch: >= 1e5 point pairs in one cross-matrix call
-    dim, m = rng.randint(1, 3), rng.randint(35, 60)
+    dim, m, big = rng.randint(1, 3), rng.randint(35, 60), True
     n = -(-100000 // m) + rng.randint(1, 300)
     hp = [10.0 ** rng.uniform(-1, 1)] + [10.0 ** rng.uniform(-1, 1) for _ in range(dim)]
   sc = 10.0 ** rng.uniform(-2, 2)
-  x = [[rng.uniform(-1, 1) * sc for _ in range(dim)] for _ in range(n)]
-  z = [[rng.uniform(-1, 1) * sc for _ in range(dim)] for _ in range(m)]
+  def newpt():
+    return [rng.uniform(-1, 1) * sc for _ in range(dim)]
+  x = [newpt() for _ in range(n)]
+  z = [newpt() for _ in range(m)]
   r = rng.random()
   if r < 0.3 and m > 1:
     z[1] = list(z[0])                       # identical points
@@ -298,8 +461,17 @@ def gen_input(rng):
     z[0] = [v + 1e4 * sc for v in z[0]]     # very distant
   if rng.random() < 0.3:
     x[0] = list(z[0])
-  return dict(kind="kernel", cls=cls, hp=hp, x=x, z=z, life=rng.choice(["fresh", "fresh", "reassigned", "inplace", "readmod"]), noise=[rng.choice([0.0, 1e-12, 1e-3, 1.0]) * hp[0] for _ in range(m)],
-              shift=[rng.uniform(-1, 1) * sc for _ in range(dim)])
+  if not big and rng.random() < 0.3:
+    # weighted distances of every size between "nearly identical" and "beyond underflow" (the two corner classes above are r ~ 1e-9 and,
+    # for most length scales, r far beyond 745: nothing in between was ever produced, and that is where alpha*phi(r) is tiny but not 0)
+    base = [hp[1 + d] * rng.uniform(-3, 3) for d in range(dim)]
+    x = [base] + far_ladder(rng, cls, hp[1:], base, n - 1)
+    z = far_ladder(rng, cls, hp[1:], base, m)
+  inp = dict(kind="kernel", cls=cls, hp=hp, x=x, z=z, life=rng.choice(["fresh", "fresh", "reassigned", "inplace", "readmod"]), noise=[rng.choice([0.0, 1e-12, 1e-3, 1.0]) * hp[0] for _ in range(m)],
+             shift=[rng.uniform(-1, 1) * sc for _ in range(dim)])
+  if not big and rng.random() < 0.4:
+    inp["history"] = gen_history(rng, n, m, newpt, lambda: [10.0 ** rng.uniform(-6, 6)] + [10.0 ** rng.uniform(-3, 3) for _ in range(dim)], dim, [sc] * dim)
+  return inp
 
 
 def search(ctx, hints, broken):
@@ -332,3 +504,10 @@ def replay(ctx, payload):
 LEVEL_TEXT += ("; the multitask Gram matrix is PSD whenever the physical Gram matrix has a factor and the task Gram matrix is PSD (Schur product "
                "theorem on the regenerated product formula); kernel objects that were re-assigned or overwritten in place before use, point sets "
                "of >= 1000 points, scalar / length-1 noise in the searcher")
+
+# --- gap round (seeded C03_m7, C03_m10): additions to the claimed level
+LEVEL_TEXT += ("; the searcher states the closed form entry-wise RELATIVELY in the far field (weighted distances of every size between nearly identical and the "
+               "underflow of exp, generated as ladders r in [1e-9, 820] around a base point, also for the physical part of the multitask kernel), and states all "
+               "entry points again after every step of a life history of the kernel object and of the caller's two point buffers (a row moved / the buffer refilled / "
+               "rescaled / a row duplicated IN PLACE and the same array object handed over again, hyperparameters re-assigned, the returned matrices overwritten by the caller, "
+               "the same question asked twice)")
